@@ -131,9 +131,16 @@ func (p *SimIdP) Authorize(location string) (redirect string, code *Code, err er
 	if err != nil {
 		return "", nil, err
 	}
-	q, err := url.ParseQuery(u.RawQuery)
-	if err != nil {
-		return "", nil, err
+	// lenient form parsing (a provider ignores parameters it cannot decode; the endpoint's own query may contain
+	// ';' or a bare '%')
+	q := url.Values{}
+	for _, kv := range strings.Split(u.RawQuery, "&") {
+		k, v, _ := strings.Cut(kv, "=")
+		dk, err1 := url.QueryUnescape(k)
+		dv, err2 := url.QueryUnescape(v)
+		if err1 == nil && err2 == nil {
+			q.Add(dk, dv)
+		}
 	}
 	ar := AuthzReq{ClientID: q.Get("client_id"), RedirectURI: q.Get("redirect_uri"), Scope: q.Get("scope"), State: q.Get("state"),
 		Nonce: q.Get("nonce"), Challenge: q.Get("code_challenge"), Method: q.Get("code_challenge_method"),
